@@ -2394,6 +2394,7 @@ impl<'a> Visitor<'a, '_, Error> for JSONValidator<'a> {
             jv.state.generic_rules = self.state.generic_rules.clone();
             jv.state.eval_generic_rule = Some(ident.ident);
             jv.state.data_location.push_str(&self.state.data_location);
+            jv.state.visited_rules = self.state.visited_rules.clone();
             jv.state.is_group_to_choice_enum = true;
             jv.state.is_multi_type_choice = self.state.is_multi_type_choice;
             jv.visit_rule(rule)?;
@@ -2466,6 +2467,7 @@ impl<'a> Visitor<'a, '_, Error> for JSONValidator<'a> {
             jv.state.generic_rules = self.state.generic_rules.clone();
             jv.state.eval_generic_rule = Some(ident.ident);
             jv.state.data_location.push_str(&self.state.data_location);
+            jv.state.visited_rules = self.state.visited_rules.clone();
             jv.state.is_multi_type_choice = self.state.is_multi_type_choice;
             jv.visit_rule(rule)?;
 
@@ -2530,6 +2532,7 @@ impl<'a> Visitor<'a, '_, Error> for JSONValidator<'a> {
             jv.state.generic_rules = self.state.generic_rules.clone();
             jv.state.eval_generic_rule = Some(ident.ident);
             jv.state.data_location.push_str(&self.state.data_location);
+            jv.state.visited_rules = self.state.visited_rules.clone();
             jv.state.is_multi_type_choice = self.state.is_multi_type_choice;
             jv.visit_rule(rule)?;
 
